@@ -170,7 +170,8 @@ def tables_on(rng):
         on = rng.sample(names, rng.randint(1, ncol))
         rec = {"df": df, "on": {"t": "const", "v": on}, "gap_token": {"t": "const", "v": rng.choice(["_", "|"])}, "df_2": NONE}
         if rng.random() < 0.4:
-            rec["df_2"] = table({c: [rng.choice(vals[:4]) for _ in range(rng.randint(1, 4))] for c in ["a", "b", "c", "d"]})
+            n2 = rng.randint(1, 4)
+            rec["df_2"] = table({c: [rng.choice(vals[:4]) for _ in range(n2)] for c in ["a", "b", "c", "d"]})
         yield rec
 
 
